@@ -227,4 +227,74 @@ CHECKS = {
             job("fuzz", "c05", ["FuzzC05Image"], 1, 1, 1, 1, fuzz={"target": "FuzzC05Image", "convert": "TestC05FromFuzzFile", "time": {"quick": 0, "thorough": 420}}),
         ],
     },
+    "C01": {
+        "level": "exploration",
+        "manifest": {
+            "technique": "property-based differential testing against real SQLite: rapid-generated schemas (CREATE TABLE grammar incl. rowid aliases, WITHOUT ROWID, constraints, quoting), rows (value grid, payloads sized around the spill thresholds, explicit extreme rowids, bulk rows computed by SQLite for depth 3-4 trees) and histories (DELETE/UPDATE/ALTER ADD COLUMN/VACUUM/incremental_vacuum/REINDEX) are executed by SQLite; sqlittle's Select on the resulting file must equal SQLite's SELECT ... ORDER BY rowid|primary key for generated column lists",
+            "level_text": "Generated (database, column list) pairs; oracle = SQLite 3.40.1 itself on the same file, compared positionally and by storage class (only tolerance: an integral REAL may surface as an integer). A table whose definition sqlittle rejects must yield an error and no rows. Sampled.",
+            "level_note": "Page sizes 512..65536 and auto_vacuum 0/1/2 are generated; depth-4 trees only in the thorough tier. Statements SQLite rejects are skipped (SQLite decides what exists). Two listed known findings are matched by narrow signatures (see KNOWN_FINDINGS.txt).",
+        },
+        "rule": ("database spec: page size, auto_vacuum, 1-2 tables from the CREATE TABLE grammar (25% beyond the core grammar), 0-45 parameter rows + optional bulk rows (30..1500, thorough 6000) computed by SQLite, "
+                 "0-3 indexes, 0-5 history statements; column list: all columns or 1-6 picks incl. rowid/oid/_rowid_ spellings and duplicates. Non-trivial = a compared table with rows that spans several pages, has an "
+                 "overflowing row, was grown by ALTER TABLE, or is WITHOUT ROWID. Distinct = fingerprint of the spec."),
+        "assumptions": ["system libsqlite3 (3.40.1) is the reference"],
+        "min_nontrivial": {"quick": 150, "thorough": 3000},
+        "required_classes": ["table:rowid", "table:without-rowid", "table:altered", "table:overflow", "rows<=10000", "ps=512", "ps=65536", "autovacuum=1"],
+        "timeout": {"quick": 400, "thorough": 2400},
+        "jobs": [
+            job("select", "c01", ["TestC01Select"], 220, 3000, 4, 14),
+        ],
+    },
+    "C02": {
+        "level": "exploration",
+        "manifest": {
+            "technique": "property-based differential testing against real SQLite: generated tables with explicit, partial, expression, UNIQUE and automatic indexes on rowid and WITHOUT ROWID tables; IndexedSelect through every index sqlittle reports must equal SQLite's SELECT [WHERE partial] ORDER BY <index_xinfo key columns with their collation and direction, then rowid / remaining primary key>",
+            "level_text": "Generated (database, index) pairs; oracle = SQLite's own description of the index (index_xinfo) turned into a total ORDER BY, exact sequence equality (hence every indexed row once, none extra, table-row values). Sampled.",
+            "level_note": "Indexes SQLite has but sqlittle leaves out are allowed by the statement and not compared; expression columns are ordered by the expression text of the generated statement.",
+        },
+        "rule": ("database spec as for C01 (0-3 generated indexes per table + automatic ones, per-column COLLATE/DESC, 25% partial, 20% expression columns, duplicates and NULLs from small value pools, bulk rows up to 1200 / 5000). "
+                 "One evaluation = one database with all its comparable indexes. Non-trivial = a compared index with rows that is partial, on a WITHOUT ROWID table, or has > 40 entries. Distinct = fingerprint of the spec."),
+        "assumptions": ["system libsqlite3 (3.40.1) is the reference"],
+        "min_nontrivial": {"quick": 100, "thorough": 2000},
+        "required_classes": ["index:rowid:explicit", "index:rowid:auto-unique", "index:rowid:auto-pk", "index:without-rowid:explicit", "index:without-rowid:auto-unique", "index:rowid:explicit:partial", "index-rows<=1000"],
+        "timeout": {"quick": 400, "thorough": 2400},
+        "jobs": [
+            job("indexed", "c02", ["TestC02IndexedSelect"], 220, 3000, 4, 14),
+        ],
+    },
+    "C03": {
+        "level": "exploration",
+        "manifest": {
+            "technique": "property-based differential testing against real SQLite: for every index / index-backed or WITHOUT ROWID primary key of generated databases, keys derived from stored entries (every prefix length, neighbours: +-1, int<->real, case swapped, trailing blank/tab, other classes, NULL, random values) are searched with IndexedSelectEq / PKSelect and compared with SQLite's SELECT ... WHERE +(expr) COLLATE c IS ? ... (unary plus: no affinity, no index use) in index order",
+            "level_text": "Generated (database, index, key) triples; oracle = SQLite's raw storage-class comparison under the index column's collation; exact sequence equality (no row missing, none extra, index order). Sampled.",
+            "level_note": "Collation and direction of the key columns are taken from SQLite's index_xinfo, not from sqlittle; text parameters are bound through +CAST(? AS TEXT) so that no affinity is applied.",
+        },
+        "rule": ("database spec as for C02; 3-12 key picks per database, each applied to every index and eligible primary key: stored row -> key columns -> prefix of length 0..n -> optional mutation of the last column "
+                 "(neighbour or arbitrary value). Non-trivial = the result is a proper non-empty subset of the indexed rows, or a non-binary collation decides, or the key was mutated to a neighbour. "
+                 "Distinct = fingerprint of the spec; searches are counted separately."),
+        "assumptions": ["system libsqlite3 (3.40.1) is the reference"],
+        "min_nontrivial": {"quick": 100, "thorough": 2000},
+        "required_classes": ["search:rowid:IndexedSelectEq", "search:without-rowid:IndexedSelectEq", "search:without-rowid:PKSelect", "search:rowid:PKSelect", "search:prefix=0", "search:prefix=2", "search:hits<=10"],
+        "timeout": {"quick": 400, "thorough": 2400},
+        "jobs": [
+            job("search", "c02", ["TestC03EqualitySearch"], 200, 2500, 4, 14),
+        ],
+    },
+    "C10": {
+        "level": "exploration",
+        "manifest": {
+            "technique": "property-based differential testing over generated programs: CREATE TABLE / CREATE INDEX / ALTER TABLE statements from a grammar (any order and mix of column and table constraints, duplicates and overlaps, COLLATE at every level, ASC/DESC, quoting styles, type names, WITHOUT ROWID, partial and expression indexes) are executed by SQLite; sqlittle's Schema / Tables / Indexes / Columns must agree with PRAGMA table_xinfo, table_list, index_list and index_xinfo of the same file",
+            "level_text": "Generated programs; oracle = SQLite's own catalogue. Compared: object names, column names and order, WITHOUT ROWID, rowid alias column, primary key columns/collations/directions, store order, and for every index sqlittle reports: existence under that name, key columns, collations, directions, and where the primary key columns sit inside the entries of WITHOUT ROWID indexes. sqlittle may reject a table or leave an index out. Sampled.",
+            "level_note": "Names are compared case-insensitively. Appended key columns are compared functionally (the position sqlittle reads a primary-key column from must hold that column in SQLite's layout).",
+        },
+        "rule": ("1-2 tables x 0-3 indexes from the grammar, optionally ALTER TABLE ADD COLUMN / RENAME; statements SQLite rejects are skipped. Non-trivial = a definition with >= 2 UNIQUE/PRIMARY KEY constraints, or one plus "
+                 "COLLATE / DESC / WITHOUT ROWID (constraints that interact: shared automatic index, numbering, alias rule, inherited collation). Distinct = fingerprint of the spec."),
+        "assumptions": ["system libsqlite3 (3.40.1) is the reference"],
+        "min_nontrivial": {"quick": 500, "thorough": 10000},
+        "required_classes": ["definition-accepted", "interacting-constraints", "index:u", "index:pk", "index:c", "index:appended-columns-checked"],
+        "timeout": {"quick": 400, "thorough": 2400},
+        "jobs": [
+            job("schema", "c10", ["TestC10Schema"], 700, 12000, 4, 14),
+        ],
+    },
 }
